@@ -19,7 +19,8 @@ from vcommon import VERIF
 PROPS = ["Bee2V/C05/Props.lean", "Bee2V/C05/PropsAdd.lean", "Bee2V/C05/PropsMul.lean", "Bee2V/C05/PropsBits.lean",
          "Bee2V/C05/PropsDiv.lean", "Bee2V/C05/PropsGcd.lean", "Bee2V/C05/PropsAlias.lean",
          "Bee2V/C05/PropsPp.lean", "Bee2V/C05/PropsRed.lean", "Bee2V/C05/PropsEtc.lean",
-         "Bee2V/C05/PropsPpMul.lean", "Bee2V/C05/PropsPpRed.lean", "Bee2V/C05/PropsMisc.lean", "Bee2V/C05/PropsGf2.lean"]
+         "Bee2V/C05/PropsPpMul.lean", "Bee2V/C05/PropsPpRed.lean", "Bee2V/C05/PropsMisc.lean", "Bee2V/C05/PropsGf2.lean",
+         "Bee2V/C05/PropsPpDiv.lean", "Bee2V/C05/PropsZm.lean"]
 
 # ----------------------------------------------------------------------------- helpers
 
@@ -314,6 +315,29 @@ class G:
         for _ in range(count // 2):
             n = self.length(8)
             self.add("wwNAF", W, hx(self.val(n), n, W), r.choice([2, 3, 4, 5, 6, 7, r.randrange(2, min(W, 12))]))
+
+    def ww_sweep(self):
+        """every shift / position value for a 2-word (3-word for bit fields) operand: position-dependent slips"""
+        W, r = self.W, self.r
+        n = 2
+        for s in range(0, (n + 2) * W + 2):
+            a = r.getrandbits(n * W) | 1 | (1 << (n * W - 1))
+            c = r.getrandbits(W) | 1 | (1 << (W - 1))
+            self.add("wwShLo", W, hx(a, n, W), s)
+            self.add("wwShHi", W, hx(a, n, W), s)
+            self.add("wwShLoCarry", W, hx(a, n, W), s, c)
+            self.add("wwShHiCarry", W, hx(a, n, W), s, c)
+            self.add("wwTrimLo", W, hx((1 << (n * W)) - 1, n, W), s)
+            self.add("wwTrimHi", W, hx((1 << (n * W)) - 1, n, W), s)
+        n = 3
+        for pos in range(0, 2 * W + 1):
+            a = r.getrandbits(n * W)
+            self.add("wwTestBit", W, hx(a, n, W), pos)
+            self.add("wwSetBit", W, hx(a, n, W), pos, 1 - ((a >> pos) & 1))
+            self.add("wwFlipBit", W, hx(a, n, W), pos)
+            for width in (0, 1, 7, W - 1, W):
+                self.add("wwGetBits", W, hx(a, n, W), pos, width)
+                self.add("wwSetBits", W, hx(a, n, W), pos, width, r.getrandbits(W))
 
     def pat3_fix(self, f, n):
         return self.pat3()
@@ -915,6 +939,7 @@ def generate(ctx, W):
     q = 4 if ctx.tier == "quick" else 12
     g.words(60 * q)
     g.ww(60 * q)
+    g.ww_sweep()
     g.zz_add(120 * q)
     g.zz_mul(80 * q)
     g.zz_gcd(40 * q)
@@ -941,8 +966,13 @@ def complete(ctx, exe, lines):
         return lines
     raw = [lines[i] for i in idx]
     outs = []
+    import subprocess
     while len(outs) < len(raw):                       # an abort loses only the op that aborted
-        o, err, rc = ctx.run_lines(exe, raw[len(outs):])
+        try:
+            o, err, rc = ctx.run_lines(exe, raw[len(outs):])
+        except subprocess.TimeoutExpired:
+            outs += ["CRASH"] * (len(raw) - len(outs))
+            break
         if rc == 0 and len(o) == len(raw) - len(outs):
             outs += o
             break
@@ -958,10 +988,21 @@ def complete(ctx, exe, lines):
 
 def diff_all(ctx, exe, lines, cfg):
     """ctx.diff_run stops at a sanitizer abort; continue behind the aborting op (at most 12 times)"""
+    import functools, subprocess
     mism, c_all, l_all, base = [], [], [], 0
     rest = lines
+    if not isinstance(ctx.run_lines, functools.partial):
+        ctx.run_lines = functools.partial(ctx.run_lines, timeout=300 if ctx.tier == "quick" else 1200)
     for _ in range(12):
-        m, c, l = ctx.diff_run(exe, rest, cfg)
+        try:
+            m, c, l = ctx.diff_run(exe, rest, cfg)
+        except subprocess.TimeoutExpired:
+            # a call that does not return although every op returned when the stream was first screened
+            # (drop_hangs): behaviour depends on memory contents outside the operands
+            ctx.violation("stream:no-return", "# property C05: the harness did not finish the op stream of configuration %s "
+                          "(a library call does not return; not reproducible op by op)\ncfg %s\n" % (cfg, cfg), True,
+                          "[%s] a library call does not return on the op stream (state-dependent)" % cfg)
+            break
         mism += [(base + i, op, co, lo) for i, op, co, lo in m]
         c_all += c
         l_all += l
@@ -1396,10 +1437,42 @@ def replay_text(cfg, op, c, l, why):
                       "# %s" % why, "cfg %s" % cfg, "op %s" % op, "impl %s" % c, "model %s" % l]) + "\n"
 
 
+ARITH_HEADERS = ["core/u16.h", "core/u32.h", "core/u64.h", "core/word.h", "math/ww.h", "math/zz.h", "math/pp.h", "math/gf2.h",
+                 "math/zm.h", "math/qr.h", "math/gfp.h"]
+
+
+def edition_pairs():
+    """SAFE(f)/FAST(f) pairs declared in the arithmetic headers of the current tree, and the ones that have BOTH
+    a `f_safe` and a `f_fast` definition in the Lean models (a new pair without models fails closed)."""
+    import re
+    names = set()
+    for h in ARITH_HEADERS:
+        p = os.path.join(vcommon.REPO, "include", "bee2", h)
+        if os.path.exists(p):
+            names |= set(re.findall(r"\bSAFE\((\w+)\)", open(p, encoding="utf-8", errors="replace").read()))
+    names -= {"f", "tag"}
+    defs = set()
+    d = os.path.join(vcommon.LEAN, "Bee2V", "C05")
+    for f in os.listdir(d):
+        if f.startswith("Model") and f.endswith(".lean"):
+            defs |= set(re.findall(r"^def (\w+)", open(os.path.join(d, f)).read(), flags=re.M))
+    missing = sorted(n for n in names if not (n + "_safe" in defs and n + "_fast" in defs))
+    return sorted(names), missing
+
+
 def run(ctx):
     present = [p for p in PROPS if os.path.exists(os.path.join(vcommon.LEAN, p))]
     proof_ok, log = ctx.prove([p[:-5].replace("/", ".") for p in present], present)
+    pairs, missing = edition_pairs()
+    ctx.cov["safe_fast_pairs_in_headers"] = len(pairs)
+    ctx.cov["safe_fast_pairs_without_model"] = missing
+    if missing:
+        proof_ok = False
+        log += "\nerror: SAFE/FAST pairs declared in the headers without a pair of Lean models: " + ", ".join(missing)
+        ctx.cov.setdefault("lake_errors", []).append("pairs without model: " + ", ".join(missing))
     cfgs = CONFIGS_QUICK if ctx.tier == "quick" else CONFIGS_THOROUGH
+    import functools
+    ctx.run_lines = functools.partial(ctx.run_lines, timeout=300 if ctx.tier == "quick" else 1200)
     streams = {}
     total_mism = 0
     reported = set()
